@@ -349,6 +349,71 @@ def figure8_path(rng):
     return path, lobes, gaps, s
 
 
+
+# ---- scenes far from the origin, thin features
+FAR_OFFSETS = [10000 + 0j, 40000 + 30000j, 65536 - 32768j, -100000 + 25000j, 131072 + 65536j,
+               250000 + 250000j, -300000 + 700000j, 1000000 + 500000j, 12345 - 987654j]
+
+
+def translate_exact(zs, O):
+    """zs + O when every coordinate stays exactly representable, else None"""
+    out = []
+    for z in zs:
+        w = z + O
+        if Fr(w.real) != Fr(z.real) + Fr(O.real) or Fr(w.imag) != Fr(z.imag) + Fr(O.imag):
+            return None
+        out.append(w)
+    return out
+
+
+def gen_thin(rng):
+    """polygon with thin features (thickness t = 2^-6 .. 1) and query probes that cross a thin part
+    on both sides.  Returns (kind, verts, [(pt, opt)...], cavity point, wall point, t)"""
+    t = rng.choice([1 / 64, 1 / 32, 1 / 16, 1 / 8, 0.25, 0.5, 1.0])
+    W, H = rng.choice([4, 8, 16, 40]), rng.choice([4, 8, 16, 40])
+    g = lambda lo, hi: round(rng.uniform(lo, hi) * 64) / 64
+    kind = rng.choice(['uchannel', 'uchannel', 'sliver', 'frame-c'])
+    if kind == 'uchannel':       # walls of thickness t on the left, bottom, right; open at the top
+        vs = [0j, W + 0j, complex(W, H), complex(W - t, H), complex(W - t, t), complex(t, t), complex(t, H), complex(0, H)]
+        cav = complex(g(2 * t + 0.5, W - 2 * t - 0.5), g(2 * t + 0.5, H - 0.5))
+        wall = complex(g(0.5, W - 0.5), t / 2 + t / 8) if rng.random() < 0.5 else complex(t / 2 + t / 8, g(0.5, H - 0.5))
+        q = [(cav, complex(-1, -1)),                                      # what is_contained_by would use
+             (cav, complex(-g(0.5, 3), cav.imag + g(-1, 1))),             # through the left wall
+             (cav, complex(W + g(0.5, 3), cav.imag + g(-1, 1))),          # through the right wall
+             (cav, complex(cav.real + g(-1, 1), -g(0.5, 3))),             # through the bottom wall
+             (wall, complex(-1, -1)), (wall, complex(W + g(0.5, 2), -g(0.5, 2))),
+             (complex(W + g(0.5, 2), g(0.5, H - 0.5)), complex(-g(0.5, 2), g(0.5, H - 0.5)))]   # across both walls
+    elif kind == 'sliver':       # thin slanted parallelogram
+        sl = rng.choice([0, 0.25, 1, -0.5])
+        vs = [0j, complex(W, sl * W), complex(W, sl * W + t), complex(0, t)]
+        x = g(0.5, W - 0.5)
+        cav = complex(x, sl * x + t + g(0.5, 2))                           # above the sliver
+        wall = complex(x, sl * x + t / 2 + t / 8)
+        q = [(cav, complex(x + g(-0.4, 0.4), sl * x - g(0.5, 2))),         # across the sliver
+             (cav, complex(g(0.5, W - 0.5), min(0, sl * W) - 1 - g(0, 1))),
+             (wall, complex(-1, min(0, sl * W) - 1)), (wall, complex(x + g(-0.4, 0.4), sl * x - g(0.5, 2)))]
+    else:                        # square frame with a slit: a C-shaped wall of thickness t around a cavity
+        s = rng.choice([0.25, 0.5, 1.0])
+        vs = [0j, W + 0j, complex(W, H / 2 - s), complex(W - t, H / 2 - s), complex(W - t, t), complex(t, t),
+              complex(t, H - t), complex(W - t, H - t), complex(W - t, H / 2 + s), complex(W, H / 2 + s),
+              complex(W, H), complex(0, H)]
+        cav = complex(g(2 * t + 0.5, W - 2 * t - 0.5), g(2 * t + 0.5, H - 2 * t - 0.5))
+        wall = complex(t / 2 + t / 8, g(0.5, H - 0.5))
+        q = [(cav, complex(-1, -1)), (cav, complex(-g(0.5, 3), cav.imag + g(-1, 1))),
+             (cav, complex(cav.real + g(-1, 1), H + g(0.5, 3))), (cav, complex(cav.real + g(-1, 1), -g(0.5, 3))),
+             (wall, complex(-1, -1)), (wall, complex(-g(0.5, 2), H + g(0.5, 2)))]
+    # rotations by multiples of 90 degrees / reflection keep everything dyadic
+    r = rng.choice([1, 1j, -1, -1j])
+    fl = rng.random() < 0.3
+    f = (lambda z: (z.conjugate() if fl else z) * r)
+    vs = [f(v) for v in vs]
+    if rng.random() < 0.5:
+        vs = vs[::-1]
+    k0 = rng.randrange(len(vs))
+    vs = vs[k0:] + vs[:k0]
+    return kind, vs, [(f(a), f(b)) for a, b in q], f(cav), f(wall), t
+
+
 # ------------------------------------------------------------ serialisation
 def seg_json(s):
     from svgpathtools import Arc
@@ -542,12 +607,15 @@ def probe_analysis(pt, opt, edges):
             return None
         D = o1 - o0
         Me = M + sum(abs(v) for p in (a, b) for v in p)
+        # local extent: the code's numerators are (coordinate) x (difference), its denominator
+        # (difference) x (difference); differences of the inputs are what carries rounding
+        Le = sum(abs(p[k] - pt[k]) for p in (opt, a, b) for k in (0, 1))
         if D != 0:
-            if abs(abs(D) - atol) <= Fr(1, 2 ** 40) * Me * Me + atol / 1000:
+            if abs(abs(D) - atol) <= Fr(1, 2 ** 40) * Le * Le + atol / 1000:
                 return None                       # the float denom may fall on either side of atol
             t1 = o0 / (o0 - o1)
             t2 = r0 / (r0 - r1)
-            err = 200 * Fr(1, 2 ** 50) * Me * Me / abs(D)
+            err = 200 * Fr(1, 2 ** 50) * Me * Le / abs(D)
             inside = [(0 < t < 1) for t in (t1, t2)]
             if any(min(abs(t), abs(1 - t)) <= err + Fr(1, 10 ** 9) for t in (t1, t2)) and \
                all(-err - Fr(1, 10 ** 9) <= t <= 1 + err + Fr(1, 10 ** 9) for t in (t1, t2)):
@@ -566,7 +634,12 @@ def probe_analysis(pt, opt, edges):
             d2 = (hits[i][0] - hits[j][0]) ** 2 + (hits[i][1] - hits[j][1]) ** 2
             if d2 <= Fr(1, 10 ** 16):
                 return None                       # two crossings closer than 1e-8: redundancy filter territory
-    return {'count': count, 'missed': missed, 'theorem_gp': theorem_gp}
+    gap = None                                    # smallest distance between two crossings on the probe
+    for i in range(len(hits)):
+        for j in range(i + 1, len(hits)):
+            d = math.sqrt(float((hits[i][0] - hits[j][0]) ** 2 + (hits[i][1] - hits[j][1]) ** 2))
+            gap = d if gap is None else min(gap, d)
+    return {'count': count, 'missed': missed, 'theorem_gp': theorem_gp, 'gap': gap}
 
 
 def ray_cast_inside(pt, verts):
@@ -610,7 +683,7 @@ def pair_crossing(e1, e2):
             if any(min(abs(t), abs(1 - t)) <= eps for t in (t1, t2)) and all(-eps <= t <= 1 + eps for t in (t1, t2)):
                 return None
             if 0 < t1 < 1 and 0 < t2 < 1:
-                Me = sum(abs(v) for p in (a, b, c, d) for v in p)
+                Me = sum(abs(p[k] - a[k]) for p in (b, c, d) for k in (0, 1))
                 if abs(abs(D) - atol) <= Fr(1, 2 ** 40) * Me * Me + atol / 1000:
                     return None
                 if abs(D) <= atol:
@@ -939,8 +1012,11 @@ def run(rep, tier, seed, replay=None):
         # ============================== B. path_encloses_pt ==============================
         enc_cases, enc_meta = [], []
 
+        last = {}
+
         def enc_check(vs, pt, opt, kind):
             nonlocal evals
+            last.pop('enc', None)
             path = poly_path(vs)
             edges = edges_of(path)
             fpt, fopt = fz(pt), fz(opt)
@@ -968,9 +1044,33 @@ def run(rep, tier, seed, replay=None):
             enc_cases.append('(%s, %s, %s, %s, %s, %s, %s)' % (
                 coq_edges(path), cq(pt), cq(opt), qc(ATOL), qc(Fr(TOL) ** 2), coq_bool(got), coq_bool(an['theorem_gp'])))
             enc_meta.append(dict(base, observed=got, crossings=an['count']))
+            last['enc'] = (got, want, an)
+            if an['gap'] is not None:
+                # two crossings closer than 1e-5*|z|: where a relative de-dup tolerance would merge them
+                zmax = max(abs(pt), abs(opt))
+                if an['gap'] < 1e-5 * zmax:
+                    dist['enc-crossings-closer-than-1e-5|z|'] = dist.get('enc-crossings-closer-than-1e-5|z|', 0) + 1
             nontrivial.add(('enc', kind, len(vs), an['count']))
             dist['enc-' + kind] = dist.get('enc-' + kind, 0) + 1
             return True
+
+
+        def enc_far(vs, pt, opt, kind, got0):
+            """the same scene translated far from the origin (exactly): exact reference, Coq tie, and
+            translation invariance of the answer"""
+            O = rng.choice(FAR_OFFSETS)
+            tr = translate_exact(list(vs) + [pt, opt], O)
+            if tr is None:
+                return
+            if not enc_check(tr[:-2], tr[-2], tr[-1], kind + '-far') or 'enc' not in last:
+                return
+            got1 = last['enc'][0]
+            if got0 is not None and got1 != got0:
+                viol('path_encloses_pt is not translation invariant: %r at the origin, %r after translating polygon, '
+                     'point and outside point by %r' % (got0, got1, O),
+                     {'kind': 'encloses', 'shape': kind + '-far', 'verts': [common.chex(v) for v in tr[:-2]],
+                      'pt': common.chex(tr[-2]), 'opt': common.chex(tr[-1]), 'offset': common.chex(O),
+                      'observed': [got0, got1]}, 'encloses-translation')
 
         if replay:
             r = json.load(open(replay))['replay']
@@ -1011,12 +1111,25 @@ def run(rep, tier, seed, replay=None):
             if opt == pt:
                 continue
             ok_ = enc_check(vs, pt, opt, kind)
+            if ok_ and 'enc' in last and rng.random() < 0.3:
+                enc_far(vs, pt, opt, kind, last['enc'][0])
             if ok_ and kind in ('convex', 'star'):
                 # the generator's own reference agrees with an independent ray cast (harness self-check)
                 rc = ray_cast_inside(fz(pt), [fz(v) for v in vs])
                 if rc is not None:
                     an = probe_analysis(fz(pt), fz(opt), edges_of(poly_path(vs)))
                     assert rc == (an['count'] % 2 == 1), 'harness: even-odd reference vs ray casting'
+        # ---- thin features (walls 2^-6 .. 1 thick, crossed on both sides), at the origin and far from it
+        thin_scenes = []
+        n_thin = 0 if replay else (16 if quick else 400) * boost
+        for i in range(n_thin):
+            kind, vs, queries, cav, wall, t = gen_thin(rng)
+            thin_scenes.append((kind, vs, cav, wall, t))
+            for pt, opt in queries:
+                if enc_check(vs, pt, opt, 'thin-' + kind) and 'enc' in last:
+                    enc_far(vs, pt, opt, 'thin-' + kind, last['enc'][0])
+                else:
+                    enc_far(vs, pt, opt, 'thin-' + kind, None)
         fails, errors = common.run_cases(tmp, '', 'casety', OKDEF_ENC, enc_cases, shard=40, prefix='enc')
         for e in errors:
             rep.violation('correspondence case file (encloses) failed to evaluate', {'kind': 'cases', 'error': e},
@@ -1067,6 +1180,7 @@ def run(rep, tier, seed, replay=None):
 
         def con_check(inner_vs, outer_vs, kind):
             nonlocal evals
+            last.pop('con', None)
             inner, outer = poly_path(inner_vs), poly_path(outer_vs)
             e_in, e_out = edges_of(inner), edges_of(outer)
             pc = pair_crossing(e_in, e_out)
@@ -1125,10 +1239,28 @@ def run(rep, tier, seed, replay=None):
             if abs(shoelace([fz(v) for v in inner_vs])) > abs(shoelace([fz(v) for v in outer_vs])):
                 # |signed area| says nothing about containment (cancelling lobes, double winding)
                 dist['con-%s-inner-area-exceeds-outer' % cls] = dist.get('con-%s-inner-area-exceeds-outer' % cls, 0) + 1
-            if '/' in kind and kind.split('/')[0] in SPECIAL_MODES:
-                dist['con-' + kind.split('/')[0]] = dist.get('con-' + kind.split('/')[0], 0) + 1
+            if '/' in kind and (kind.split('/')[0] in SPECIAL_MODES or kind.startswith('thin') or kind.endswith('-far')):
+                tag = kind.split('/')[0] + ('-far' if kind.endswith('-far') and not kind.split('/')[0].endswith('-far') else '')
+                dist['con-' + tag] = dist.get('con-' + tag, 0) + 1
+            last['con'] = got
             nontrivial.add(('con', cls, len(inner_vs), len(outer_vs), len(con_cases)))
             return True
+
+        def con_far(inner_vs, outer_vs, kind, got0):
+            """the same pair translated far from the origin (exactly): reference, Coq tie, invariance"""
+            O = rng.choice(FAR_OFFSETS)
+            tr = translate_exact(list(inner_vs) + list(outer_vs), O)
+            if tr is None:
+                return
+            ti, to = tr[:len(inner_vs)], tr[len(inner_vs):]
+            if not con_check(ti, to, kind + '-far') or 'con' not in last:
+                return
+            if got0 is not None and last['con'] != got0:
+                viol('is_contained_by is not translation invariant: %r at the origin, %r after translating both paths by %r'
+                     % (got0, last['con'], O),
+                     {'kind': 'contained', 'shape': kind + '-far', 'inner': [common.chex(v) for v in ti],
+                      'outer': [common.chex(v) for v in to], 'offset': common.chex(O), 'observed': [got0, last['con']]},
+                     'contained-translation')
 
 
         con2_cases, con2_meta = [], []
@@ -1198,6 +1330,7 @@ def run(rep, tier, seed, replay=None):
         # ---- pairs where |signed area| is no guide: self-intersecting outer paths (cancelling lobes, winding 2
         #      cores), doubly winding inner paths, figure-eight Bezier outer paths
         n_special = 0 if replay else (42 if quick else 700) * boost
+        last_inner = [None]
         done = tries = 0
         while done < n_special and tries < 20 * n_special:
             tries += 1
@@ -1205,13 +1338,16 @@ def run(rep, tier, seed, replay=None):
             if mode in ('bowtie-lobe', 'bowtie-gap'):
                 outer_vs, lobes, gaps, sz = gen_bowtie(rng)
                 cen = rng.choice(lobes if mode == 'bowtie-lobe' else gaps)
-                ok_ = con_check(small_poly(rng, cen, sz / rng.choice([8, 16])), outer_vs, mode + '/bowtie')
+                last_inner[0] = small_poly(rng, cen, sz / rng.choice([8, 16]))
+                ok_ = con_check(last_inner[0], outer_vs, mode + '/bowtie')
             elif mode in ('pentagram-tip', 'pentagram-core'):
                 outer_vs, tips, core, R = gen_pentagram(rng)
                 cen = rng.choice(tips if mode == 'pentagram-tip' else core)
-                ok_ = con_check(small_poly(rng, cen, R / rng.choice([8, 16])), outer_vs, mode + '/pentagram')
+                last_inner[0] = small_poly(rng, cen, R / rng.choice([8, 16]))
+                ok_ = con_check(last_inner[0], outer_vs, mode + '/pentagram')
             elif mode == 'spiral2':
                 inner_vs, outer_vs = gen_spiral2(rng)
+                last_inner[0] = inner_vs
                 ok_ = con_check(inner_vs, outer_vs, mode + '/convex')
             else:
                 outer, lobes, gaps, sz = figure8_path(rng)
@@ -1219,6 +1355,20 @@ def run(rep, tier, seed, replay=None):
                 ok_ = con_check_curved(small_poly(rng, cen, sz * rng.choice([0.25, 0.125]) * (1 if mode == 'figure8-lobe' else 0.25)),
                                        outer, mode + '/figure8')
             done += 1 if ok_ else 0
+            if ok_ and 'con' in last and mode not in ('figure8-lobe', 'figure8-gap') and rng.random() < 0.3:
+                con_far(last_inner[0], outer_vs, mode + '/' + mode, last['con'])
+        # ---- thin-walled outer paths: a small polygon in the cavity (the implied probe crosses a wall on both
+        #      sides), inside the wall, or outside; at the origin and far from it
+        for kind, vs, cav, wall, t in thin_scenes:
+            xs = [v.real for v in vs]; ys = [v.imag for v in vs]
+            outp = complex(max(xs) + 1.5, (min(ys) + max(ys)) / 2)
+            for where, cen, size in (('cavity', cav, 0.25), ('wall', wall, t / 4), ('outside', outp, 0.5)):
+                inner_vs = small_poly(rng, cen, size)
+                nm = 'thin-%s-%s/%s' % (kind, where, kind)
+                if con_check(inner_vs, vs, nm) and 'con' in last:
+                    con_far(inner_vs, vs, nm, last['con'])
+                else:
+                    con_far(inner_vs, vs, nm, None)
         tries = 0
         simple = [p for p in polys if p[0] in ('convex', 'star')]
         n_con += len(con_cases)
@@ -1254,7 +1404,8 @@ def run(rep, tier, seed, replay=None):
                 inner_vs = inner_vs[::-1]
             k0 = rng.randrange(len(inner_vs))
             inner_vs = inner_vs[k0:] + inner_vs[:k0]
-            con_check(inner_vs, outer_vs, mode + '/' + kind)
+            if con_check(inner_vs, outer_vs, mode + '/' + kind) and 'con' in last and rng.random() < 0.25:
+                con_far(inner_vs, outer_vs, mode + '/' + kind, last['con'])
         fails, errors = common.run_cases(tmp, '', 'casety', OKDEF_CON, con_cases, shard=30, prefix='con')
         for e in errors:
             rep.violation('correspondence case file (is_contained_by) failed to evaluate', {'kind': 'cases', 'error': e},
@@ -1283,7 +1434,9 @@ def run(rep, tier, seed, replay=None):
             'distinct (shape kind, size, exact area); enclosure: (polygon, pt, opt) in exact general position, distinct = '
             'distinct (kind, n, crossing count); containment: nested / disjoint / crossing / surrounding pairs, plus pairs where '
             '|signed area| is no guide (bow-tie and pentagram outer polygons with a small polygon in a lobe / tip / gap / winding-2 '
-            'core, doubly winding spiral inside a smaller-area convex polygon, figure-eight Bezier outer path); every Coq '
+            'core, doubly winding spiral inside a smaller-area convex polygon, figure-eight Bezier outer path); thin features '
+            '(U-channel, sliver, C-frame; walls 2^-6..1 thick crossed on both sides) and exact translates of enclosure / containment '
+            'scenes by offsets 1e4..1e6 with the translation invariance of the answers; every Coq '
             'comparison is computed on Model/Area.v in exact rationals')
         rep.cov['input_distribution'] = dist
         rep.cov['violations_by_key'] = by_key
